@@ -102,6 +102,9 @@ type thread struct {
 	dying      bool
 	gid        uint64              // goroutine id of the thread\'s current goroutine (norace)
 	retired    bool                // its goroutine exited (after a panic or kill); respawn before re-use
+	condTicket int                 // > 0: position in a Cond's wait queue (arrival order)
+	condObj    int                 // the Cond it waits on
+	condWoken  bool                // a Signal/Broadcast has selected it
 	job        atomic.Pointer[job] // published by the scheduler (release), loaded by the thread (acquire)
 	finished   atomic.Uint64       // run number the thread last finished (release), read by the scheduler (acquire)
 	panicVal   any
@@ -136,6 +139,7 @@ type Sim struct {
 	poolSize map[int]int // simulated pool contents, by object id
 	events   []Event
 	step     int
+	condSeq  int
 	run      uint64
 }
 
@@ -500,6 +504,26 @@ func (s *Sim) accept(t *thread) {
 		if a == 1 {
 			s.lock(ev.Obj).readers++
 		}
+	case simsync.KCondEnq:
+		s.condSeq++
+		t.condTicket, t.condObj, t.condWoken = s.condSeq, ev.Obj, false
+	case simsync.KCondSignal, simsync.KCondBroadcast:
+		// Wake the longest-waiting thread (all of them for Broadcast).
+		for {
+			var w *thread
+			for _, u := range s.threads {
+				if u.condTicket > 0 && u.condObj == ev.Obj && !u.condWoken && (w == nil || u.condTicket < w.condTicket) {
+					w = u
+				}
+			}
+			if w == nil {
+				break
+			}
+			w.condWoken = true
+			if kind == simsync.KCondSignal {
+				break
+			}
+		}
 	case KDone:
 		t.done = true
 		t.retired = a != 0
@@ -532,6 +556,8 @@ func (s *Sim) blocked(t *thread) bool {
 	case simsync.KRLock:
 		l := s.lock(t.pending.Obj)
 		return l.writer != 0 || l.writerPending != 0
+	case simsync.KCondWait:
+		return !t.condWoken
 	}
 	return false
 }
@@ -583,6 +609,7 @@ func Run(ch chooser.Chooser, cfg Config, bodies []func(tid int)) *Result {
 			go t.loop()
 		}
 		t.pending, t.pendingIdx, t.parked, t.done, t.panicVal, t.stack = Event{}, 0, false, false, nil, ""
+		t.condTicket, t.condObj, t.condWoken = 0, 0, false
 		s.threads = append(s.threads, t)
 		t.job.Store(&job{sim: s, run: s.run, body: body}) // release
 		s.resume(t, false, 0)
@@ -718,6 +745,8 @@ func (s *Sim) grant(t *thread) int64 {
 		}
 	case simsync.KRLock:
 		s.lock(ev.Obj).readers++
+	case simsync.KCondWait:
+		t.condTicket, t.condWoken = 0, false
 	case simsync.KPoolGet:
 		// The pool's contents as of now (the count sent with the yield may be
 		// stale: other threads have run since).
